@@ -80,6 +80,12 @@ def build(rng, geom, dtype):
         ts.append(T_(["h", "p1"], [2, 2], "T1"))
         ts.append(T_(["h", "x1"], [2, 2], "T2"))
         ts.append(T_(["x1", "p3"], [2, 2], "T3"))
+    elif geom == "hyperout":
+        # an *output* label that also joins two tensors (a hyper network in quimb's sense: output_inds must be given)
+        hyper = True
+        ts.append(T_(["o", "x0", "p0"], [2, 2, 2], "T0"))
+        ts.append(T_(["o", "x1"], [2, 2], "T1"))
+        ts.append(T_(["x0", "x1", "p1"], [2, 2, 2], "T2"))
     elif geom == "structured":
         # tensors with diagonal / antidiagonal / single-column structure so the structure finders fire
         diag = np.diag([1.0, 2.0])
@@ -95,6 +101,8 @@ def build(rng, geom, dtype):
     tn = qtn.TensorNetwork(ts)
     labels = sorted(tn.ind_map)
     out = [x for x in labels if sum(t.inds.count(x) for t in ts) == 1]
+    if geom == "hyperout":
+        out = sorted(out + ["o"])
     return tn, out, hyper
 
 
@@ -124,6 +132,22 @@ class Case:
         self.recs.append({"ev": "new", "tid": tid, "seq": 0, "net": net, "out": list(self.out), "exp10": self.exp10,
                           "scale": self.scale, "geom": geom, "dtype": str(np.dtype(dtype))})
         self.imprecise = 0
+        # simple-update style gauges: vectors living on bonds; the network then denotes tensors + gauges
+        self.gauges = None
+        if geom in ("chain", "multibond", "ones", "star") and rng.random() < 0.4:
+            self.gauges = {}
+            for ix in self.tn.inner_inds():
+                d = self.tn.ind_size(ix)
+                self.gauges[ix] = np.asarray([float(rng.choice([1, 2, 3])) for _ in range(d)]).astype("float64")
+            # the trace's reference network includes the gauges as one-label tensors on their bonds
+            for ix, g in self.gauges.items():
+                net.append({"inds": [ix], "shape": [int(g.size)], "data": snap_garray(g)})
+            self.recs[0]["gauged"] = True
+
+    def gauge_tensors(self):
+        if not self.gauges:
+            return []
+        return [((ix,), np.asarray(g)) for ix, g in self.gauges.items()]
 
     def tags(self):
         return sorted(g for g in self.tn.tag_map if g.startswith("T"))
@@ -159,7 +183,7 @@ class Case:
                 self.recs.append(rec)
                 self.dead = True
                 return
-            val = np_denote(tn_tensors(tn), self.out, tn.exponent)
+            val = np_denote(tn_tensors(tn) + self.gauge_tensors(), self.out, tn.exponent)
             mag = float(np.max(np.abs(val), initial=0.0)) * 10.0 ** self.scale
             single = np.dtype(self.dtype) in (np.dtype("float32"), np.dtype("complex64"))
             if mag * (2e-6 if single else 1e-12) > 0.1:
@@ -201,7 +225,7 @@ class Case:
         hyper_now = any(len(tids) > 2 for tids in tn.ind_map.values()) or any(len(tn.ind_map.get(x, ())) > 1 for x in self.out)
         if hyper_now:
             menu = ["rank_simplify", "diagonal_reduce", "antidiag_gauge", "column_reduce", "full_simplify", "hyperinds_resolve",
-                    "equalize_norms", "hyperinds_resolve"]
+                    "equalize_norms", "hyperinds_resolve", "pair_simplify", "full_simplify_P", "loop_simplify"]
         else:
             menu = ["canonize_between", "canonize_around", "gauge_all_canonize", "gauge_all_simple", "gauge_all_random", "gauge_local",
                     "insert_gauge", "balance_bonds", "equalize_norms", "fuse_multibonds", "squeeze", "rank_simplify", "diagonal_reduce",
@@ -209,9 +233,19 @@ class Case:
                     "compress_between", "compress_all", "expand_bond", "t_canonize_bond", "t_compress_bond", "t_balance_bond",
                     "t_make_single_bond", "t_fuse_squeeze", "strip_exponent", "distribute_exponent", "canonize_between", "compress_all_tree",
                     "isometrize_form", "gauge_all", "squeeze_fuse", "flip", "hyperinds_resolve"]
+        if self.gauges is not None:
+            # a gauged network: only the operations that take (and maintain) the gauges
+            menu = ["g_fuse_squeeze", "g_make_single", "g_fuse_multibonds", "g_insert", "g_fuse_squeeze", "g_squeeze_keep"]
+        elif not hyper_now and r.random() < 0.06:
+            menu = ["g_all_simple"]
         op = r.choice(menu)
-        if tn.num_tensors < 2 and op.startswith(("gauge", "canonize", "balance", "compress")):
+        if (tn.num_tensors < 2 or not any(len(tids) == 2 for tids in tn.ind_map.values())) and \
+                op.startswith(("gauge", "canonize", "balance", "compress", "g_")):
             return      # no bonds left to gauge
+        if any(not np.any(np.abs(np.asarray(t.data)) > 0) for t in tn.tensors):
+            # a tensor that is identically zero: the network denotes zero, norms cannot be equalised and the
+            # simplification passes divide by them unless asked to check (a zero has no mantissa/exponent form)
+            return
         multib = any(len(set(a.inds) & set(b.inds)) > 1 for i, a in enumerate(tn.tensors) for b in tn.tensors[i + 1:])
         if multib and op == "balance_bonds":
             return      # balance_bonds is defined bond by bond: networks with multibonds are rejected (ValueError)
@@ -260,7 +294,10 @@ class Case:
             m = r.choice(["canonize", "simple", "random"])
             self.observe("gauge_all", {"method": m}, lambda t: t.gauge_all(method=m))
         elif op == "gauge_local":
-            tg = r.choice(self.tags())
+            cand = [g for g in self.tags() if any(len(tn.ind_map[i]) == 2 for t in tn.select_tensors(g) for i in t.inds)]
+            if not cand:
+                return
+            tg = r.choice(cand)
             m = r.choice(["canonize", "simple"])
             self.observe("gauge_local", {"tag": tg, "method": m}, lambda t: t.gauge_local(tg, max_distance=r.choice([1, 2]), method=m))
         elif op == "insert_gauge":
@@ -334,6 +371,9 @@ class Case:
                 self.observe("pair_simplify", {}, lambda t: t.pair_simplify(output_inds=out))
         elif op == "loop_simplify":
             self.observe("loop_simplify", {}, lambda t: t.loop_simplify(output_inds=out))
+        elif op == "full_simplify_P":
+            seq = r.choice(["ADCRP", "RPL", "P", "ADCRSP"])
+            self.observe("full_simplify", {"seq": seq, "equalize_norms": False}, lambda t: t.full_simplify(seq, output_inds=out))
         elif op == "full_simplify":
             seq = r.choice(["ADCR", "ADCRS", "R", "DRAC", "ADCRSL", "ADCRSP", "CADR"])
             eq = r.random() < 0.3
@@ -392,6 +432,47 @@ class Case:
                     qtc.tensor_fuse_squeeze(ta, tb)
                 return t
             self.observe(op, {"a": a, "b": b}, f)
+        elif op in ("g_fuse_squeeze", "g_make_single"):
+            if not nb:
+                return
+            a, b, ix = r.choice(nb)
+            g = self.gauges
+            def f(t):
+                t = t.copy()
+                if op == "g_fuse_squeeze":
+                    qtc.tensor_fuse_squeeze(t[a], t[b], gauges=g)
+                else:
+                    qtc.tensor_make_single_bond(t[a], t[b], gauges=g)
+                return t
+            self.observe(op, {"a": a, "b": b}, f)
+        elif op == "g_fuse_multibonds":
+            g = self.gauges
+            self.observe("fuse_multibonds(gauges)", {}, lambda t: t.fuse_multibonds(gauges=g))
+        elif op == "g_squeeze_keep":
+            return
+        elif op == "g_insert":
+            g = self.gauges
+            def f(t):
+                t = t.copy()
+                t.gauge_simple_insert(g)
+                return t
+            # the gauges are absorbed into the tensors: afterwards the bare network denotes the value
+            def done(tn0, tnx):
+                return {}
+            old = self.gauges
+            self.gauges = None
+            try:
+                self.observe("gauge_simple_insert", {}, lambda t: f(t))
+            finally:
+                pass
+        elif op == "g_all_simple":
+            g = {}
+            def f(t):
+                t = t.copy()
+                t.gauge_all_simple_(max_iterations=r.choice([1, 3]), gauges=g)
+                return t
+            self.gauges = g
+            self.observe("gauge_all_simple_(gauges)", {}, f)
         elif op == "isometrize_form":
             # (isometrize changes the value on purpose: only the promised form is observed, on a scratch copy)
             return
@@ -402,7 +483,7 @@ class Case:
             self.observe("flip(bond)", {"ix": ix}, lambda t: t.flip([ix]))
 
 
-GEOMS = ["chain", "star", "triangle", "square", "multibond", "ones", "hyper", "structured"]
+GEOMS = ["chain", "star", "triangle", "square", "multibond", "ones", "hyper", "structured", "hyperout"]
 
 
 def run(ctx):
@@ -416,11 +497,11 @@ def run(ctx):
         raise MachineryError("model self-test: a normalize that keeps left_inds must violate ClaimSound")
     ctx.extra["model_selftest"] = "Tensor.normalize keeping left_inds on a rescaled tensor violates ClaimSound"
 
-    ncases, nsteps = (110, 3) if quick else (900, 4)
+    ncases, nsteps = (240, 3) if quick else (1500, 4)
     dtypes = ["float64", "complex128", "float32", "complex64"]
     recs, names, imprecise = [], {}, 0
     for k in range(ncases):
-        c = Case(rng, k, dtypes[k % 4] if k % 3 else "float64", GEOMS[k % len(GEOMS)])
+        c = Case(rng, k, dtypes[k % 4] if k % 5 else "float64", GEOMS[k % len(GEOMS)])
         for _ in range(nsteps):
             c.step()
         recs += c.recs
